@@ -101,6 +101,8 @@ def sig_src(sig):
             parts.append(name)
         elif kind == "default":
             parts.append("%s=%r" % (name, default))
+        elif kind == "rdefault":
+            parts.append("%s=raiser()" % name)  # a default whose evaluation may raise (when the def is DEFINED)
         elif kind == "varargs":
             parts.append("*" + name)
             seen_star = True
@@ -146,6 +148,8 @@ def emit_nodes(nodes, out):
                         attrs += ' %s="${%s}"' % (a[1], v[1])
                     elif v[0] == "mix":
                         attrs += ' %s="%s${%s}%s"' % (a[1], v[1], v[2], v[3])
+                    elif v[0] == "mix2":
+                        attrs += ' %s="%s${%s}%s${%s}%s"' % (a[1], v[1], v[2], v[3], v[4], v[5])
                 out.append("<%%self:%s%s%s>" % (name, attrs, ba))
                 close = "</%%self:%s>" % name
             else:
@@ -287,6 +291,8 @@ class Model:
             return self.call_def(v[1], [], {}, scope)
         if v[0] == "mix":
             return v[1] + str(self.lookup(scope, v[2])) + v[3]
+        if v[0] == "mix2":
+            return v[1] + str(self.lookup(scope, v[2])) + v[3] + str(self.lookup(scope, v[4])) + v[5]
         if v[0] == "rf":
             if self.context.get("armed"):
                 self.events.add("raised")
@@ -309,7 +315,7 @@ class Model:
         return self.invoke(d, defscope, pos, kw, caller)
 
     def invoke(self, d, defscope, pos, kw, caller):
-        sig = inspect.signature(eval("lambda %s: None" % sig_src(d["sig"])))
+        sig = inspect.signature(eval("lambda %s: None" % sig_src(d["sig"]), {"raiser": lambda: "rf"}))
         ba = sig.bind(*pos, **kw)  # TypeError for a wrong call: as Python
         ba.apply_defaults()
         local = dict(ba.arguments)
@@ -320,6 +326,11 @@ class Model:
         self.events.add("def")
 
         def run_body():
+            # the nested defs of d are defined (their argument defaults evaluated) when d starts, before its body
+            for nd in d.get("nested", []):
+                if any(k == "rdefault" for _, k, _ in nd["sig"]) and self.context.get("armed"):
+                    self.events.add("raised")
+                    raise self.context["boom"]
             self.run(d["body"], scope)
 
         if d.get("cached"):
